@@ -262,6 +262,9 @@ def p_pow(a, e):
             fa = list(xa.kids[0]) if xa.op == "had" else [(xa, ONE)]
             fs = frozenset((f, ex * e) for f, ex in fa)
             atom = next(iter(fs))[0] if (len(fs) == 1 and next(iter(fs))[1] == 1) else A("had", fs)
+            if atom.op == "poly":
+                # (sqrt(p)) ** 2 is p again: multiply the parenthesised sum back out
+                return p_had(frozenset([((s2, ()), kk)]), atom.kids[0])
             return frozenset([((s2, (atom,)), kk)])
     if not a:
         return ZERO if e > 0 else P_atom(A("div0"), scalar=True)
@@ -698,8 +701,12 @@ class Normalizer:
             return p_pow(self.nf(a[0]), Fraction(1, 2))
         if op == "T":
             return p_T(self.nf(a[0]), self.symmetric)
-        if op in ("reshape1", "astype"):
+        if op in ("reshape1", "astype", "bcast"):
             return self.nf(a[0])
+        if op == "norm" and len(a) == 2 and isinstance(a[1], tuple) and a[1] and a[1][0] == "axis":
+            # Euclidean norm along an axis = sqrt of the sum of squares along it
+            x = self.nf(a[0])
+            return p_pow(self.linear_reduce("sum", (None, a[1]), inner=p_had(x, x)), Fraction(1, 2))
         if op == "zeros":
             return ZERO
         if op == "full" and isinstance(a[0], Term) and a[0].op == "const" and (a[0].args[0] is False or a[0].args[0] == 0) and a[0].args[0] is not None and not isinstance(a[0].args[0], str):
